@@ -10,6 +10,11 @@ randomness is the byte tape the real `WrapConn` consumed, time is explicit.  Hex
 * `fac.new <F> <nodeid20> <idpriv32> <drbgseed24>` → `ok <idpub> <closeDelay s>`
   (`ServerFactory(stateDir, args)` with `node-id`, `private-key`, `drbg-seed`; fresh replay filter)
 * `fac.len <F>` → `<entries in the replay filter>`
+* `fac.fill <F> <nowNs> <n>` → `ok <entries> <fast|slow>`: `n` submissions `TestAndSet(now, v)` of distinct values
+  that are no handshake MAC (`2^128 + k`, a MAC digest is below `2^128`) — the harness calls the real
+  filter with as many fresh random 16-byte values.  Fast path (one append, `C03.fill_is_repeated_testAndSet`)
+  when its hypotheses are checked to hold: positive TTL, `len + n ≤ cap`, eldest entry young and not in
+  the future, no remembered value ≥ the first new one; otherwise `TestAndSet` one by one.
 * `conn.run <F> <startNs> <tape> <ev>…` → `ok <tape used> <phase> <out>…`
   one `WrapConn(conn)`: `tape` = what `crypto/rand` delivered (32 B per key-pair attempt ‖ 8 B per
   `IntRange` draw ‖ response padding), `startNs` = accept time on the clock handed to the replay filter;
@@ -35,6 +40,7 @@ structure Fac where
   f : Factory
   lenSeed : Bytes
   filter : RF.Filter
+  nextDummy : Nat := 0     -- dummy values handed out by `fac.fill` so far
 
 structure St where
   facs : List (String × Fac) := []
@@ -115,12 +121,26 @@ def step (st : St) : List String → St × String
       | none => (st, "fail fuel")
       | some cd =>
         let f : Factory := { idPriv := sk, idPub := Ref.identityPublic sk, nodeID := nid, closeDelay := cd }
-        (st.put name ⟨f, sd, newFilter⟩, "ok " ++ hex f.idPub ++ " " ++ toString cd)
+        (st.put name { f := f, lenSeed := sd, filter := newFilter }, "ok " ++ hex f.idPub ++ " " ++ toString cd)
     | _, _, _ => (st, "bad-op")
   | ["fac.len", name] =>
     match st.get name with
     | some fac => (st, toString fac.filter.fifo.length)
     | none => (st, "bad-op")
+  | ["fac.fill", name, now, count] =>
+    match st.get name, now.toInt?, count.toNat? with
+    | some fac, some t, some n =>
+      let f := fac.filter
+      let base := 2 ^ 128 + fac.nextDummy
+      let ds := (List.range n).map (base + ·)
+      let frontOk := match f.fifo.head? with
+        | none => true
+        | some e => decide (e.t ≤ t) && decide (t - e.t < f.ttl)
+      let fast := decide (0 < f.ttl) && decide (f.fifo.length + n ≤ f.cap) && frontOk && f.fifo.all (fun e => decide (e.d < base))
+      let f' := if fast then f.fillFresh t ds else (f.run (ds.map (fun d => (t, d)))).1
+      (st.put name { fac with filter := f', nextDummy := fac.nextDummy + n },
+       "ok " ++ toString f'.fifo.length ++ (if fast then " fast" else " slow"))
+    | _, _, _ => (st, "bad-op")
   | "conn.run" :: name :: start :: tape :: evs =>
     match st.get name, start.toInt?, unhex? tape with
     | some fac, some t0, some tp =>
